@@ -25,7 +25,7 @@ META = dict(
                 thorough=dict(pool="as quick", history="K<=3 unrestricted; K<=5 with one changing PID and the events {table change, iterate[, is_running]}", pid_exists="as quick")),
     outside=["more than 2 threads / more than 2 pre-emptions; races inside one source line", "more than 4 PIDs"],
     labels=["pids-ascending-listed", "ascending-one-per-listed-pid", "same-object-while-listed", "fresh-object-after-detected-reuse", "cache-holds-exactly-listed", "is_running", "pid_exists-listed",
-            "pid_exists-any-int", "attrs-info-keys", "partial-iteration-skips-vanished", "race-no-exception"],
+            "pid_exists-any-int", "attrs-info-keys", "partial-iteration-skips-vanished", "race-no-exception", "torn-down-process-skipped"],
 )
 
 
@@ -83,10 +83,10 @@ class Table:
 ITER_EVENTS = ["table", "iterate", "clear", "is_running", "attrs"]
 
 
-SCRIPTS = [["table", "iterate", "table", "iterate", "iterate"], ["iterate", "table", "attrs", "iterate", "iterate"]]
+SCRIPTS = [["table", "iterate", "table", "iterate", "iterate"], ["table", "is_running", "iterate", "iterate", "iterate"], ["iterate", "table", "attrs", "iterate", "iterate"]]
 
 
-@harness("C04.iter", quick=[dict(K=2)] + [dict(K=len(s_), script=s_, changing=[7, 12]) for s_ in SCRIPTS[:1]],
+@harness("C04.iter", quick=[dict(K=2)] + [dict(K=len(s_), script=s_, changing=[7, 12]) for s_ in SCRIPTS[:2]],
          thorough=[dict(K=3), dict(K=4, events=["table", "iterate", "is_running"], changing=[12]), dict(K=5, events=["table", "iterate"], changing=[12])]
          + [dict(K=len(s_), script=s_) for s_ in SCRIPTS] + [dict(K=7, script=["iterate", "table", "iterate", "iterate", "table", "iterate", "iterate"], changing=[7, 12])])
 def iter_(ctx, K, events=None, changing=None, script=None):
@@ -97,7 +97,11 @@ def iter_(ctx, K, events=None, changing=None, script=None):
     simk.system_files(k)
     t = Table(ctx, k)
     cache = {}     # reference of what the cache should hold: pid -> (object, incarnation)
+    detected = set()   # PIDs that is_running() has reported as recycled since the last process_iter() pass (tracked here, not read from psutil)
+    users = {}
     with k.installed():
+        if events is None:
+            users = {p_: (psutil.Process(p_), t.gen[p_]) for p_ in t.listed()}     # objects the user holds himself (never in the cache)
         for step in range(K):
             ev = script[step] if script else ctx.choice(f"ev{step}", events or ITER_EVENTS)
             if ev == "table":
@@ -106,14 +110,17 @@ def iter_(ctx, K, events=None, changing=None, script=None):
                 psutil.process_iter.cache_clear()
                 cache.clear()
             elif ev == "is_running":
-                for p, (obj, g) in list(cache.items()):
+                for p, (obj, g) in list(cache.items()) + list(users.items()):
                     r = obj.is_running()
                     ctx.prove(r == (t.present[p] and t.gen[p] == g), "is_running", detail=f"pid {p}")
+                    if not r and t.present[p]:
+                        detected.add(p)
             elif ev == "attrs":
                 want = [a for a in ATTRS if ctx.flag(f"attr{step}_{a}")]
                 if not want:
                     continue          # attrs=[] is documented as "all attributes"
-                flagged = sorted(p for p in psutil._pids_reused if p in t.listed())
+                flagged = sorted(p for p in detected if p in t.listed())
+                detected.clear()
                 # cached objects whose PID was recycled since: `ppid` runs the re-use check, which raises NoSuchProcess in the middle of
                 # the pass, so that PID is dropped from this pass too (known finding C04-reused-pid-skipped-during-pass)
                 stale = sorted(p for p, (o_, g_) in cache.items() if p in t.listed() and t.gen[p] != g_ and p not in flagged) if "ppid" in want else []
@@ -135,7 +142,8 @@ def iter_(ctx, K, events=None, changing=None, script=None):
             else:
                 listed = t.listed()
                 ctx.prove(psutil.pids() == listed, "pids-ascending-listed")
-                flagged = sorted(p for p in psutil._pids_reused if p in listed)     # found recycled by is_running() since the last pass
+                flagged = sorted(p for p in detected if p in listed)     # found recycled by is_running() since the last pass
+                detected.clear()
                 got = ctx.guard("ascending-one-per-listed-pid", lambda: list(psutil.process_iter()))
                 _check_listing(ctx, [x.pid for x in got], listed, flagged)
                 for x in got:
@@ -218,6 +226,29 @@ def partial(ctx, consume):
     ctx.prove(got == sorted(got) and len(got) == len(set(got)) and set(got) <= set(started), "partial-iteration-skips-vanished", detail=f"{got} started={started}")
     still = [p for p in started if t.present[p]]
     ctx.prove(set(still) <= set(got), "partial-iteration-skips-vanished", detail=f"{got} must include {still}")
+
+
+@harness("C04.torn_down", quick=[dict(attrs=a) for a in (None, ["name", "status"])])
+def torn_down(ctx, attrs):
+    """a process that is being torn down while the table is iterated: it is still listed and its /proc/<pid>/stat still opens, but
+    reading it fails with ESRCH.  process_iter() neither raises nor loses the other processes; the dying one may be skipped."""
+    k = simk.Kernel(ctx)
+    simk.system_files(k)
+    t = Table(ctx, k)
+    t.change("a")
+    with k.installed():
+        first = [x.pid for x in ctx.guard("torn-down-process-skipped", lambda: list(psutil.process_iter(attrs)))]
+        victim = ctx.choice("dying", POOL)
+        if t.present[victim]:
+            when = ctx.choice("dying_from", ["second pass", "cached then dying"])
+            path = f"/proc/{victim}/stat"
+            k.files[path] = simk.fails_on_read(k, path)
+            if when == "second pass":
+                psutil.process_iter.cache_clear()
+        got = [x.pid for x in ctx.guard("torn-down-process-skipped", lambda: list(psutil.process_iter(attrs)))]
+    listed = t.listed()
+    ctx.prove(first == listed, "ascending-one-per-listed-pid", detail=f"{first} vs {listed}")
+    ctx.prove(got == sorted(got) and set(got) <= set(listed) and set(listed) - {victim} <= set(got), "torn-down-process-skipped", detail=f"{got} vs {listed}, dying: {victim}")
 
 
 @harness("C04.race", quick=[dict(P=1)], thorough=[dict(P=2)], timeout_ms=5000)
